@@ -142,6 +142,7 @@ func cmdCheck(args []string) {
 	findings := loadFindings(filepath.Join(root, "known_findings.txt"))
 
 	var all []*Obligation
+	obTS := map[*Obligation]*TermStore{}
 	var results []*FuncResult
 	engineErrors := map[string]string{}
 	run := func(key string, lock bool, lemma bool) {
@@ -156,7 +157,14 @@ func cmdCheck(args []string) {
 			engineErrors[r.Key] = r.Error
 			return
 		}
-		V.Solver.Discharge(E.TS, r.Obls, timeout, false)
+		tsr := E.TS
+		if r.TS != nil {
+			tsr = r.TS
+		}
+		V.Solver.Discharge(tsr, r.Obls, timeout, false)
+		for _, o := range r.Obls {
+			obTS[o] = tsr
+		}
 		all = append(all, r.Obls...)
 	}
 	for _, k := range cfg.Functions {
@@ -238,8 +246,12 @@ func cmdCheck(args []string) {
 			rec["solver"] = o.Solver
 			rec["status"] = o.Status
 			rec["solver_output"] = truncate(o.Model, 20000)
-			rec["hypotheses"] = truncate(E.TS.Show(o.Hyp), 20000)
-			rec["goal"] = truncate(E.TS.Show(o.Goal), 8000)
+			tso := E.TS
+			if t, ok := obTS[o]; ok {
+				tso = t
+			}
+			rec["hypotheses"] = truncate(tso.Show(o.Hyp), 20000)
+			rec["goal"] = truncate(tso.Show(o.Goal), 8000)
 			ok, out := tryReplay(root, &cfg, id, o, rec)
 			if !ok && cfg.Replay != nil && cfg.Replay[o.Fn] != nil && o.Fn != "" {
 				// the failing condition may sit behind a loop cut: look for an entry-state model with loops unrolled
